@@ -167,3 +167,8 @@ add("r15_4b_ring_not_copied", "C13", "R15.4b", "Large.1",
 add("r17_7_stale_sign", "C05", "R17.7", "clone_from",
     [("integer/src/repr.rs", "        let (cap, _) = self.sign_capacity();\n", "        let (cap, sign) = self.sign_capacity();\n"),
      ("integer/src/repr.rs", "            if (src_sign == Sign::Positive) ^ (self.capacity.get() > 0) {", "            if src_sign != sign {")])
+
+add("half_wrong_divisor", "C10", "R10.5", "repr_div",
+    [("float/src/div.rs", "            let adjust = R::round_ratio(&q, r, &rhs.significand);", "            let adjust = R::round_ratio(&q, r, &q);")])
+add("half_unshifted_den", "C06", "R06.5", "to_f32",
+    [("rational/src/convert.rs", "                let half = (r << 1).cmp(&den);", "                let half = (r << 1).cmp(&self.denominator);")])
